@@ -319,6 +319,8 @@ func (c *Ctx) typeInvs(v Val, t types.Type, depth int) []string {
 		{
 			kv := fmt.Sprintf("tk!n%d", depth)
 			out = append(out, tImp(m.Nil, tForall([][2]string{{kv, m.KS}}, tNot(tSel(m.Has, kv)))))
+			// a map of length 0 has no key
+			out = append(out, tImp(tEq(m.Len, "0"), tForall([][2]string{{kv, m.KS}}, tNot(tSel(m.Has, kv)))))
 		}
 		if at, ok := m.K.Underlying().(*types.Array); ok && at.Len() <= 3 {
 			// keys of array type: only encodings of byte tuples are present
